@@ -107,7 +107,22 @@ fn main() {
     }
     let code = dispatch!(id.as_str(), mode, &opts, {
         "C01" => c01::C01,
+        "C02" => c02::C02,
+        "C03" => c03::C03,
+        "C04" => c04::C04,
+        "C05" => c05::C05,
+        "C06" => c06::C06,
+        "C07" => c07::C07,
+        "C08" => c08::C08,
+        "C09" => c09::C09,
+        "C10" => c10::C10,
+        "C11" => c11::C11,
+        "C14" => c14::C14,
+        "C15" => c15::C15,
+        "C16" => c16::C16,
+        "C17" => c17::C17,
         "C18" => c18::C18,
+        "C20" => c20::C20,
     });
     std::process::exit(code);
 }
